@@ -1939,7 +1939,7 @@ class Isometry(projective.Transformation, HyperbolicObject):
             like = block_elliptic
 
         mat = utils.zeros((dimension + 1, dimension + 1),
-                          like=like, **kwargs)
+                          like=like, integer_type=False, **kwargs)
 
         # add one to preserve base_ring
         mat[0,0] = utils.number(1, like=like, **kwargs)
@@ -1975,7 +1975,7 @@ class Isometry(projective.Transformation, HyperbolicObject):
             like = angle
 
         affine = utils.identity(
-            dimension, like=like, **kwargs
+            dimension, like=like, integer_type=False, **kwargs
         )
 
         affine[0:2, 0:2] = utils.rotation_matrix(
